@@ -287,4 +287,30 @@ def headerPath (name : Bytes) : Bytes :=
 def pagePath (name : Bytes) (lang : Lang) (p : Page) : Bytes :=
   [0x65, 0x78, 0x64, 0x2f] ++ pageFileName name lang p
 
+/-! ## root list (`exd/root.exl`) -/
+
+/-- decimal text of an integer -/
+def showInt (i : Int) : Bytes := if i < 0 then 0x2d :: decimal i.natAbs else decimal i.natAbs
+
+/-- `EXLT,<version>` then one line `<name>,<id>` per sheet, lines separated by `\n` -/
+def encodeRootList (version : Int) (entries : List (Bytes × Int)) : Bytes :=
+  [0x45, 0x58, 0x4c, 0x54, 0x2c] ++ showInt version
+    ++ (entries.map (fun e => 10 :: (e.1 ++ 0x2c :: showInt e.2))).flatten
+
+def inI32 (i : Int) : Prop := -2147483648 ≤ i ∧ i ≤ 2147483647
+
+instance (i : Int) : Decidable (inI32 i) := by unfold inI32; infer_instance
+
+/-- a sheet name: ASCII without line break or comma, not a `#` comment, not the version key -/
+def WFname (n : Bytes) : Prop :=
+  (∀ b ∈ n, b ≠ 10 ∧ b ≠ 0x2c ∧ b < 128) ∧ n.head? ≠ some 0x23 ∧ n ≠ [0x45, 0x58, 0x4c, 0x54]
+
+instance (n : Bytes) : Decidable (WFname n) := by unfold WFname; infer_instance
+
+def WFrootList (version : Int) (entries : List (Bytes × Int)) : Prop :=
+  inI32 version ∧ ∀ e ∈ entries, WFname e.1 ∧ inI32 e.2
+
+instance (v : Int) (es : List (Bytes × Int)) : Decidable (WFrootList v es) := by
+  unfold WFrootList; infer_instance
+
 end Physis.Spec.Excel
